@@ -225,7 +225,7 @@ def gen_case_c03(rng):
     longk = [k for k in pool if isinstance(k, str) and len(k) > 200]
     if len(longk) >= 2 and rng.random() < 0.25:
         keys = [k for k in keys if k not in longk] + (longk[2:4] if (len(longk) >= 4 and rng.random() < 0.5) else longk[:2])
-    if b['kind'] == 'dir' and not is_source(b) and rng.random() < 0.04:
+    if b['kind'] == 'dir' and not is_source(b) and rng.random() < 0.1:
         pk = rng.choice(['data/x.csv', '/abs/path', "('a/b',)"])     # path-like keys (recorded finding)
         keys += [pk, pk.replace('/', '_')]       # ... and the key a 'flattened' path would collide with
     if b['kind'] == 'dir' and not is_source(b) and not is_json(b) and rng.random() < 0.04:
@@ -260,7 +260,11 @@ def gen_case_c03(rng):
             # (the keys are handed over as a list, a tuple, or a one-shot generator)
             ops.append([o, [enc(x) for x in ks], rng.choice(['list', 'list', 'tuple', 'gen'])])
         elif o == 'badset':
-            ops.append([o, enc(k)])
+            if rng.random() < 0.4:
+                # a batch: one storable item, then one that cannot be encoded
+                ops.append(['badupdate', enc(k), enc(value_pool(b, rng, u))])
+            else:
+                ops.append([o, enc(k)])
         elif o in ('clear',) and rng.random() < 0.6:
             ops.append(['len'])
         else:
@@ -411,7 +415,8 @@ class Run03(object):
                          [x for x in set(real) ^ set(M)] or ([k] if k is not None else ()))
                 # resynchronise the model so one defect is reported once
                 self.model = dict(real)
-            if not self.cached and gen.persistent(self.b) and i % 5 == 2:
+            if not self.cached and gen.persistent(self.b) and (i % 5 == 2 or getattr(self, 'force_second', False)):
+                self.force_second = False
                 self.note('c03_second_handle_checks')
                 try:
                     h = open_archive(self.b, self.root, cached=False, public=False)
@@ -480,6 +485,30 @@ class Run03(object):
                 M.pop(k, None)
                 self.note('c03_unencodable_accepted')
             # (the content comparison after the step checks "unchanged" and "still usable")
+        elif o == 'badupdate':
+            kind = unencodable(self.b)
+            if kind is None or self.cached:
+                return
+            v = make_value(dec(op[2]))
+            try:
+                a.update([(k, v), ('zz-unencodable', make_unencodable(kind))])
+            except Exception:
+                pass
+            self.note('c03_failed_update_checks')
+            try:
+                if 'zz-unencodable' in a:      # (no write unless there is something to remove: a write would commit)
+                    a.pop('zz-unencodable', None)
+            except Exception:
+                pass
+            # the storable item may or may not have been kept - but whatever this handle now reports is what every
+            # other handle must see as well (checked right after this step)
+            try:
+                kept = a[k]
+                if same_value(kept, v):
+                    M[k] = v
+            except Exception:
+                pass
+            self.force_second = True
         elif o == 'get':
             r, m, ok = self.apply(lambda: a[k], lambda: M[k], 'a[%r]' % (k,), [k])
             if ok and r[0] == 'ret' and not null and not same_value(r[1], m[1]):
